@@ -195,10 +195,10 @@ func genC07Storm(seed int64, round, n, m int, stall bool) *c07Spec {
 
 func (s *c07Spec) String() string {
 	if s.storm > 0 {
-		return fmt.Sprintf("VERIF_SEED=%d round=%d: %d open tunnels, each relaying %d tagged payloads in both directions at the same time (slow readers with large host payloads: %v)\n", s.seed, s.round, s.n, s.storm, s.stall)
+		return fmt.Sprintf("VERIF_SEED=%d round=%d (gateway idle timeout %d min): %d open tunnels, each relaying %d tagged payloads in both directions at the same time (slow readers with large host payloads: %v)\n", s.seed, s.round, c07Idle(s.round), s.n, s.storm, s.stall)
 	}
 	var b strings.Builder
-	fmt.Fprintf(&b, "VERIF_SEED=%d round=%d tunnels=%d concurrent-drivers=%v\n", s.seed, s.round, s.n, s.burst)
+	fmt.Fprintf(&b, "VERIF_SEED=%d round=%d tunnels=%d concurrent-drivers=%v gateway-idle-timeout=%dmin\n", s.seed, s.round, s.n, s.burst, c07Idle(s.round))
 	for _, t := range s.tuns {
 		fmt.Fprintf(&b, "  tunnel %d: transport=%s id-form=%d token-case=%s(ref %d) client-payloads=%d host-payloads=%d keepalives=%d end=%s\n", t.idx, t.kind, t.idForm, t.tokCase, t.other, t.nUp, t.nDown, t.ka, t.end)
 	}
@@ -825,8 +825,8 @@ func (rd *c07Round) oracleLine() string {
 	for _, l := range rd.live {
 		dial = append(dial, l.host.addr)
 	}
-	return fmt.Sprintf("multi token=1 sc=0 ccheck=1 ncheck=0 hcheck=1 redir=0000000 idle=0 pmode=%s phosts=%s pverify=1 tokens=%s dial=%s ev=%s",
-		hx([]byte("roundrobin")), hxStrs(rd.hosts), strings.Join(toks, ","), hxStrs(dial), strings.Join(rd.trace, ";"))
+	return fmt.Sprintf("multi token=1 sc=0 ccheck=1 ncheck=0 hcheck=1 redir=0000000 idle=%d pmode=%s phosts=%s pverify=1 tokens=%s dial=%s ev=%s",
+		c07Idle(rd.spec.round), hx([]byte("roundrobin")), hxStrs(rd.hosts), strings.Join(toks, ","), hxStrs(dial), strings.Join(rd.trace, ";"))
 }
 
 // foreign looks for payloads of another tunnel in a byte stream.
@@ -859,15 +859,21 @@ func c07FileStore() func() {
 	return func() { os.Setenv("TMPDIR", old); os.RemoveAll(dir) }
 }
 
-func c07Gateway() *protocol.Gateway {
-	return &protocol.Gateway{TokenAuth: true, CheckPAACookie: security.CheckPAACookie, CheckHost: security.CheckSession(security.CheckHost)}
+// c07Idle: the idle timeout (minutes) configured on the gateway of a round; rounds alternate between
+// none and thirty minutes (caps.idletimeout is something deployments set).
+func c07Idle(round int) int { return (round % 2) * 30 }
+
+func c07Gateway(idle int) *protocol.Gateway {
+	return &protocol.Gateway{IdleTimeout: idle, TokenAuth: true, CheckPAACookie: security.CheckPAACookie, CheckHost: security.CheckSession(security.CheckHost)}
 }
 
 func runC07(r *Run) {
 	r.rule = "rounds of 1…N simultaneous tunnels (quick N ≤ 12, thorough N ≤ 64) on both transports against the real HTTP handler with the real token and host policy callbacks: distinct connection identifiers (mstsc brace form, bare, sharing long prefixes, suffixed, short), different users / client addresses / tokens / hosts, tunnels that present another tunnel's token, ask for another tunnel's host, or share a user, access token and web-session cookie (filesystem session store) from different addresses; DATA packets declaring more than they carry; tagged payloads in both directions; every way of ending; stray inbound requests with unknown, near-miss and other tunnels' identifiers; schedules are random merges of the per-tunnel scripts (one driver) or one driver per tunnel; non-trivial = every tunnel; distinct by (seed, round, tunnel)"
 	idp := setupSecurity()
-	gws := startGateway(c07Gateway())
-	defer gws.close()
+	gws0 := startGateway(c07Gateway(c07Idle(0)))
+	defer gws0.close()
+	gws1 := startGateway(c07Gateway(c07Idle(1)))
+	defer gws1.close()
 	defer c07FileStore()()
 	r.TierRan("api")
 	legacyDrainWait = 15 * time.Millisecond // many tunnels at once: give the IN handler time to reach its Drain
@@ -887,6 +893,10 @@ func runC07(r *Run) {
 			// late readers behind small receive buffers, large host payloads: a packet held back by one
 			// client's full pipe while the other tunnels keep producing packets
 			spec = genC07Storm(r.Seed, round, r.N(12, 24), r.N(120, 300), true)
+		}
+		gws := gws0
+		if c07Idle(round) != 0 {
+			gws = gws1
 		}
 		rd := setupC07Round(spec, gws, idp, -1)
 		r.Breadcrumb(spec.String())
@@ -1068,7 +1078,7 @@ func runC07Alone(r *Run) {
 	fmt.Sscanf(os.Getenv("VERIF_C07_ALONE"), "%d:%d:%d:%d", &round, &n, &idx, &b)
 	legacyDrainWait = 15 * time.Millisecond
 	idp := setupSecurity()
-	gws := startGateway(c07Gateway())
+	gws := startGateway(c07Gateway(c07Idle(round)))
 	defer gws.close()
 	defer c07FileStore()()
 	// regenerate the same round: the tunnel count is forced to the recorded one
